@@ -73,6 +73,9 @@ pub const SYMBOLS: &[(&str, Sym)] = &[
     ("recursive-enum-two-self", Sym::Item("#[typeshare]\n#[serde(tag = \"t\", content = \"c\")]\npub enum EdgeExpr { Add { lhs: Box<EdgeExpr>, rhs: Box<EdgeExpr> }, Neg(Box<EdgeExpr>), Lit(u32) }\n")),
     ("mutual-recursion-twice", Sym::Item("#[typeshare]\npub struct EdgeMa { pub b1: Option<Box<EdgeMb>>, pub b2: Vec<EdgeMb> }\n#[typeshare]\npub struct EdgeMb { pub a1: Option<Box<EdgeMa>>, pub a2: Vec<EdgeMa> }\n")),
     ("recursive-via-alias", Sym::Item("#[typeshare]\npub type EdgeKids = Vec<EdgeNode>;\n#[typeshare]\npub struct EdgeNode { pub kids: EdgeKids, pub more: EdgeKids }\n")),
+    // many items of each kind, half of them serde-renamed to names that sort differently from the Rust names (slices longer than
+    // the standard sort's insertion-sort threshold are the only ones on which an inconsistent item order is noticed)
+    ("many-items-mixed-renames", Sym::Item("#[typeshare]\n#[serde(rename = \"ManySR09\")]\npub struct ManyS05 { pub v: u32 }\n#[typeshare]\npub struct ManyS18 { pub v: u32 }\n#[typeshare]\n#[serde(rename = \"ManySR20\")]\npub struct ManyS22 { pub v: u32 }\n#[typeshare]\npub struct ManyS15 { pub v: u32 }\n#[typeshare]\n#[serde(rename = \"ManySR16\")]\npub struct ManyS07 { pub v: u32 }\n#[typeshare]\npub struct ManyS14 { pub v: u32 }\n#[typeshare]\n#[serde(rename = \"ManySR07\")]\npub struct ManyS23 { pub v: u32 }\n#[typeshare]\npub struct ManyS21 { pub v: u32 }\n#[typeshare]\n#[serde(rename = \"ManySR11\")]\npub struct ManyS06 { pub v: u32 }\n#[typeshare]\npub struct ManyS19 { pub v: u32 }\n#[typeshare]\n#[serde(rename = \"ManySR08\")]\npub struct ManyS13 { pub v: u32 }\n#[typeshare]\npub struct ManyS16 { pub v: u32 }\n#[typeshare]\n#[serde(rename = \"ManySR13\")]\npub struct ManyS08 { pub v: u32 }\n#[typeshare]\npub struct ManyS00 { pub v: u32 }\n#[typeshare]\n#[serde(rename = \"ManySR17\")]\npub struct ManyS09 { pub v: u32 }\n#[typeshare]\npub struct ManyS11 { pub v: u32 }\n#[typeshare]\n#[serde(rename = \"ManySR15\")]\npub struct ManyS03 { pub v: u32 }\n#[typeshare]\npub struct ManyS17 { pub v: u32 }\n#[typeshare]\n#[serde(rename = \"ManySR14\")]\npub struct ManyS02 { pub v: u32 }\n#[typeshare]\npub struct ManyS01 { pub v: u32 }\n#[typeshare]\n#[serde(rename = \"ManySR18\")]\npub struct ManyS20 { pub v: u32 }\n#[typeshare]\npub struct ManyS12 { pub v: u32 }\n#[typeshare]\n#[serde(rename = \"ManySR10\")]\npub struct ManyS04 { pub v: u32 }\n#[typeshare]\npub struct ManyS10 { pub v: u32 }\n#[typeshare]\n#[serde(rename = \"ManyER07\")]\npub enum ManyE10 { A, B }\n#[typeshare]\npub enum ManyE08 { A, B }\n#[typeshare]\n#[serde(rename = \"ManyER14\")]\npub enum ManyE20 { A, B }\n#[typeshare]\npub enum ManyE00 { A, B }\n#[typeshare]\n#[serde(rename = \"ManyER16\")]\npub enum ManyE23 { A, B }\n#[typeshare]\npub enum ManyE19 { A, B }\n#[typeshare]\n#[serde(rename = \"ManyER10\")]\npub enum ManyE21 { A, B }\n#[typeshare]\npub enum ManyE22 { A, B }\n#[typeshare]\n#[serde(rename = \"ManyER22\")]\npub enum ManyE04 { A, B }\n#[typeshare]\npub enum ManyE16 { A, B }\n#[typeshare]\n#[serde(rename = \"ManyER18\")]\npub enum ManyE14 { A, B }\n#[typeshare]\npub enum ManyE09 { A, B }\n#[typeshare]\n#[serde(rename = \"ManyER01\")]\npub enum ManyE07 { A, B }\n#[typeshare]\npub enum ManyE05 { A, B }\n#[typeshare]\n#[serde(rename = \"ManyER05\")]\npub enum ManyE12 { A, B }\n#[typeshare]\npub enum ManyE13 { A, B }\n#[typeshare]\n#[serde(rename = \"ManyER13\")]\npub enum ManyE15 { A, B }\n#[typeshare]\npub enum ManyE06 { A, B }\n#[typeshare]\n#[serde(rename = \"ManyER17\")]\npub enum ManyE01 { A, B }\n#[typeshare]\npub enum ManyE18 { A, B }\n#[typeshare]\n#[serde(rename = \"ManyER21\")]\npub enum ManyE02 { A, B }\n#[typeshare]\npub enum ManyE17 { A, B }\n#[typeshare]\n#[serde(rename = \"ManyER11\")]\npub enum ManyE03 { A, B }\n#[typeshare]\npub enum ManyE11 { A, B }\n#[typeshare]\n#[serde(rename = \"ManyAR11\")]\npub type ManyA06 = u32;\n#[typeshare]\npub type ManyA17 = u32;\n#[typeshare]\n#[serde(rename = \"ManyAR08\")]\npub type ManyA01 = u32;\n#[typeshare]\npub type ManyA20 = u32;\n#[typeshare]\n#[serde(rename = \"ManyAR04\")]\npub type ManyA16 = u32;\n#[typeshare]\npub type ManyA03 = u32;\n#[typeshare]\n#[serde(rename = \"ManyAR21\")]\npub type ManyA05 = u32;\n#[typeshare]\npub type ManyA12 = u32;\n#[typeshare]\n#[serde(rename = \"ManyAR16\")]\npub type ManyA07 = u32;\n#[typeshare]\npub type ManyA09 = u32;\n#[typeshare]\n#[serde(rename = \"ManyAR02\")]\npub type ManyA10 = u32;\n#[typeshare]\npub type ManyA04 = u32;\n#[typeshare]\n#[serde(rename = \"ManyAR14\")]\npub type ManyA13 = u32;\n#[typeshare]\npub type ManyA11 = u32;\n#[typeshare]\n#[serde(rename = \"ManyAR00\")]\npub type ManyA00 = u32;\n#[typeshare]\npub type ManyA21 = u32;\n#[typeshare]\n#[serde(rename = \"ManyAR19\")]\npub type ManyA22 = u32;\n#[typeshare]\npub type ManyA08 = u32;\n#[typeshare]\n#[serde(rename = \"ManyAR05\")]\npub type ManyA23 = u32;\n#[typeshare]\npub type ManyA02 = u32;\n#[typeshare]\n#[serde(rename = \"ManyAR18\")]\npub type ManyA14 = u32;\n#[typeshare]\npub type ManyA18 = u32;\n#[typeshare]\n#[serde(rename = \"ManyAR07\")]\npub type ManyA15 = u32;\n#[typeshare]\npub type ManyA19 = u32;\n")),
     // an untranslatable type whose text is long and not ASCII (a diagnostic that echoes it must not cut it inside a character)
     ("unsupported-type-with-long-non-ascii-text-0", Sym::Item("#[typeshare]\npub struct EdgeLong0 { pub callback: Box<dyn Fn(éééééééééééééééééééééééééééééééééééééééééééééééééééééééééééé, ßßßßßßßßßßßß) -> EdgeOutcomeWithAVeryLongNameToGoPastEightyBytes + Send + Sync> }\n")),
     ("unsupported-type-with-long-non-ascii-text-1", Sym::Item("#[typeshare]\npub struct EdgeLong1 { pub callback: Box<dyn Fn(xéééééééééééééééééééééééééééééééééééééééééééééééééééééééééééé, ßßßßßßßßßßßß) -> EdgeOutcomeWithAVeryLongNameToGoPastEightyBytes + Send + Sync> }\n")),
